@@ -33,6 +33,10 @@ UNIVERSE = [ABSENT, None, True, False, 0, 1, -1, 2, 1.0, 0.0, 0.5, 2.5, "", "a",
 OPS = ["==", "!=", "<", "<=", ">", ">="]
 
 
+NUMDOC = [0, 0.001, 0.005, 0.01, 0.05, 0.125, 0.25, 0.5, 1, 1.0, 1.25, 1.5, 5, 10, 12.5, 15, 15.0, 25, 50, 100, 125, 150, 250, 1000, 1250, 2500, 10000, 12500,
+          -0.01, -0.025, -0.1, -0.25, -1, -2.5, -10, -25, -100, -250, 0.15, 0.015, 0.0015, 0.0125, 0.00125, 0.1, 2.5, 0.025, 0.0005, 0.000125, 0.0001, 500, 5000, 12500.0, "1", True, None]
+
+
 def lit(v):
     if v is None:
         return "null"
@@ -105,6 +109,14 @@ def gen(ctx):
             cases.append({"kind": "regex", "text": f"$[?{fn}(@, {plit})]", "doc": subjects})
             cases.append({"kind": "regex", "text": f"$[?!{fn}(@.s, {plit}) || {fn}(@.t, {plit})]", "doc": [{"s": a, "t": b} for a, b in zip(subjects, reversed(subjects))]})
     ctx.exhaustive_spaces.append(f"{len(qgen.REGEXES)} patterns of the common dialect x match/search x {len(subjects)} subjects")
+    # every RFC 9535 spelling of a number literal (int / frac / exp parts, either case of the exponent marker, signs) denotes the
+    # number it spells: decided against Python's own reading of the same text
+    mants = ["0", "1", "5", "25", "125", "100", "-1", "-0", "1.5", "0.5", "1.0", "12.50", "-2.5"]
+    exps = ["", "e0", "E0", "e1", "E1", "e+1", "E+1", "e-1", "E-1", "e-2", "E-2", "e2", "E2", "e-3", "E-3", "E-0", "e+0"]
+    for m_ in mants:
+        for x in exps:
+            cases.append({"kind": "numlit", "text": m_ + x, "doc": NUMDOC})
+    ctx.exhaustive_spaces.append(f"number literal spellings: {len(mants)} mantissas x {len(exps)} exponent parts x 3 operators")
     # (2) generated expressions
     docs = filter_docs(ctx, 25 if ctx.tier == "quick" else 300)
     nq = 1500 if ctx.tier == "quick" else 25000
@@ -132,6 +144,18 @@ def evaluate(ctx, cases):
     import jsonpath as _jp
     from .. import lexcorr
     lexcorr.run_compile(ctx, _jp.DEFAULT_ENV, [c["text"] for c in cases if c["kind"] in ("expr", "regex", "cmp-fn")] + [c["text"] for c in cases if c["kind"] in ("cmp", "cmp-lit")][::7])
+    for c in [c for c in cases if c["kind"] == "numlit"]:
+        want_v = float(c["text"])
+        for op, f in (("==", lambda v: v == want_v), ("<", lambda v: v < want_v), (">=", lambda v: v >= want_v)):
+            text = f"$[?@ {op} {c['text']}]"
+            nums = lambda v: isinstance(v, (int, float)) and not isinstance(v, bool)   # noqa: E731
+            want = [v for v in c["doc"] if nums(v) and f(v)]
+            got = core.outcome(lambda: _jp.findall(text, c["doc"]))
+            ctx.case(("numlit", text), True)
+            ctx.count("kind:numlit")
+            if got.get("ok") != want:
+                ctx.violation("a number literal in any RFC 9535 spelling denotes the number it spells", {"text": text, "doc": c["doc"]}, got.get("ok", got.get("err")), want)
+    cases = [c for c in cases if c["kind"] != "numlit"]
     reqs, meta = [], []
     for c in cases:
         o = _compiled.get(c["text"])
